@@ -58,8 +58,8 @@ def stale_map_guard(table, tx):
     for f in FILES.values():
         for v, text in tx.items():
             ent = table.get(text + "\u0000" + f)
-            if CLASSES[v] != "modified" or not ent or "content" not in ent:
-                continue
+            if CLASSES[v] != "modified" or not ent or "content" not in ent or v.startswith("prb"):
+                continue            # (probe versions are never thrown from; their staleness is judged position by position)
             _, mj, _ = vlib.split_trailer(ent["content"])
             toks = sorted(t for t in vlib.decode_mappings(json.loads(mj)["mappings"]) if t[2] is not None)
             for w, ln in THROW_LINE.items():
